@@ -51,6 +51,7 @@ func c19(c *Ctx) {
 	}
 	fk := c.FK(safe)
 	tb := ir.NewTB(c.P.IsRepoFunc, c.P.FuncKey)
+	tb.ParamCallers = c.StaticCallers // the command may be created in a helper that receives the context
 
 	// the call tree of the checked entry point (logging excluded)
 	tree := c.Closure([]*ssa.Function{safe}, true, func(f *ssa.Function) bool {
@@ -276,7 +277,13 @@ func c19(c *Ctx) {
 	// ---- R-err: failure edges of SafeCmdExecution lead to error returns --------
 	c.checkErrorPropagation("R-err", safe, func(call *ssa.Call) bool {
 		n := ir.CallName(call)
-		return strings.HasPrefix(n, "(*os/exec.Cmd).") || ir.Callee(call).Static == c.FuncOpt(PkgUtil, "CheckFilePermissionsForExecution")
+		if strings.HasPrefix(n, "(*os/exec.Cmd).") || ir.Callee(call).Static == c.FuncOpt(PkgUtil, "CheckFilePermissionsForExecution") {
+			return true
+		}
+		// a wrapper around the permission check
+		st := ir.Callee(call).Static
+		chk := c.FuncOpt(PkgUtil, "CheckFilePermissionsForExecution")
+		return st != nil && chk != nil && c.P.IsRepoFunc(st) && errResultIndex(st) >= 0 && c.staticallyCalls(st, func(f *ssa.Function) bool { return f == chk }, 2)
 	})
 	c.R.Require("R-err", 2)
 	// success return carries the trimmed output of the command: result #0 on the nil-error return derives from Output's result
